@@ -55,8 +55,14 @@ type HeldView struct {
 	Name     string
 	View     *manager.View
 	Recorded string // digest of the answers given when it was opened
-	OpenedAt int    // number of events before it
-	Released bool
+	// RecordedTags: the tags the view showed for every stream when it was opened (all tags prefetched)
+	RecordedTags string
+	// PendingAtOpen: per tag the streams that were pending in the service when the view took its snapshot.
+	// What was decided then is shared (same memory) between the view, the service and other views; what
+	// was pending the view evaluates into memory of its own.  Values alone do not show the difference.
+	PendingAtOpen string
+	OpenedAt     int // number of events before it
+	Released     bool
 }
 
 type World struct {
